@@ -72,7 +72,7 @@ ON_ERROR = ['return', 'raise']
 VERBOSE = [0, 3]
 MODES = ['native', 'pytest']
 IMPORT_KINDS = ['good', 'raises', 'syntax', 'missing', 'packaged', 'packaged_index0', 'good_twice', 'rotates_syspath',
-                'shrinks_syspath',
+                'shrinks_syspath', 'rotates_syspath_werror',
                 'root_first_on_syspath', 'root_inside_syspath', 'root_first_on_syspath_index0',
                 'raises_root_first_on_syspath', 'raises_root_inside_syspath', 'syntax_root_first_on_syspath']
 
@@ -206,6 +206,7 @@ def make_import_targets(root):
     t['packaged_index0'] = t['packaged']
     # import-time code that re-orders sys.path (every entry is kept): the temporary entry moves with the others
     t['rotates_syspath'] = w('rot_zz/improt_zz.py', 'import sys\n_first = sys.path.pop(0)\nsys.path.append(_first)\nZ = 3\n')
+    t['rotates_syspath_werror'] = w('rotw_zz/improtw_zz.py', 'import sys\n_first = sys.path.pop(0)\nsys.path.append(_first)\nZ = 3\n')
     # import-time code that removes the first sys.path entry (finding F41); the harness puts that entry back before the
     # comparison, what must be gone is the temporary entry
     t['shrinks_syspath'] = w('shr_zz/impshr_zz.py', 'import sys\n_gone = sys.path.pop(0)\nV = 5\n')
@@ -242,6 +243,12 @@ def check_imports(ctx):
         def call(p=p, kw=kw, kind=kind):
             first = sys.path[0]
             try:
+                if kind == 'rotates_syspath_werror':
+                    # warnings are errors while the module is imported (python -W error): the notice about the changed
+                    # sys.path may raise, the temporary entry must be gone all the same (finding F44)
+                    with warnings.catch_warnings():
+                        warnings.simplefilter('error')
+                        return utils.import_module_from_path(p, **kw)
                 return utils.import_module_from_path(p, **kw)
             finally:
                 if kind == 'shrinks_syspath' and (not sys.path or sys.path[0] != first):
@@ -249,7 +256,7 @@ def check_imports(ctx):
         try:
             result, ok = monitored(ctx, 'utils.import_module_from_path(%s)' % kind,
                                    call, case, 'target %s' % p,
-                                   path_as_multiset=(kind == 'rotates_syspath'))
+                                   path_as_multiset=kind.startswith('rotates_syspath'))
         finally:
             sys.path[:] = saved_path
         if ok:
